@@ -1,7 +1,8 @@
 ------------------------------ MODULE Pipeline ------------------------------
 (* Cross-layer programs: encode -> encrypt (secret or public key) -> evaluate -> serialise onto one shared     *)
 (* stream -> deserialise (into fresh or used receivers) -> evaluate with keys that travelled over the same       *)
-(* stream -> collective key switch to another shared key -> decrypt -> decode.                                  *)
+(* stream -> collective key switch to another shared key / collective refresh -> polynomial evaluation ->        *)
+(* linear transformation -> decrypt -> decode.                                                                  *)
 (*                                                                                                          *)
 (* A register holds the message of a ciphertext: a vector over Z_T of period 4 along each row of slots (so that  *)
 (* a rotation by k acts as a cyclic shift of the 4 values), its level and the key it is encrypted under; the    *)
@@ -85,6 +86,26 @@ Refresh(a, out, order) == /\ Live(a)
                           /\ Log([op |-> "refresh", a |-> a, out |-> out, order |-> order])
                           /\ UNCHANGED <<wire, wired>>
 
+\* polynomial evaluation (bgv polynomial evaluator on the evaluator of the ciphertext's key, monomial basis): p applied
+\* slot-wise; both menu polynomials have degree 2 or 3 and consume two levels
+PolyMenu == <<<<1, 0, 1>>, <<0, 2, 0, 1>>>>                  \* 1 + x^2 ;  2x + x^3   (constant coefficient first)
+RECURSIVE Horner(_, _, _)
+Horner(c, x, k) == IF k > Len(c) THEN 0 ELSE (c[k] + x * Horner(c, x, k + 1)) % T
+PolyV(c, a) == [i \in 1..4 |-> Horner(c, a[i], 1)]
+Poly(a, out, p) == /\ Live(a) /\ reg[a].lvl >= 2
+                   /\ reg' = [reg EXCEPT ![out] = [vals |-> PolyV(PolyMenu[p], reg[a].vals), lvl |-> reg[a].lvl - 2, key |-> reg[a].key]]
+                   /\ Log([op |-> "poly", a |-> a, out |-> out, p |-> p])
+                   /\ UNCHANGED <<wire, wired>>
+
+\* linear transformation with the diagonals 0 and 1 (bgv lintrans evaluator, rotation key of the ciphertext's key),
+\* followed by a rescale: out[i] = d0[i] * a[i] + d1[i] * a[i + 1]; one level consumed
+LinMenu == <<[d0 |-> <<1, 2, 3, 4>>, d1 |-> <<5, 0, 1, 2>>], [d0 |-> <<0, 0, 0, 0>>, d1 |-> <<1, 1, 1, 1>>]>>
+LinV(m, a) == [i \in 1..4 |-> (m.d0[i] * a[i] + m.d1[i] * a[(i % 4) + 1]) % T]
+Lin(a, out, m) == /\ Live(a) /\ reg[a].lvl >= 1
+                  /\ reg' = [reg EXCEPT ![out] = [vals |-> LinV(LinMenu[m], reg[a].vals), lvl |-> reg[a].lvl - 1, key |-> reg[a].key]]
+                  /\ Log([op |-> "lin", a |-> a, out |-> out, m |-> m])
+                  /\ UNCHANGED <<wire, wired>>
+
 Init == reg = [r \in Regs |-> Null] /\ wire = <<>> /\ wired = [k \in {1, 2} |-> FALSE] /\ hist = <<>>
 Next == /\ Len(hist) < MaxSteps
         /\ \/ \E r \in Regs, v \in Pool, how \in {"sk", "pk"} : Enc(r, v, how)
@@ -95,6 +116,8 @@ Next == /\ Len(hist) < MaxSteps
            \/ \E k \in {1, 2} : WireKeys(k)
            \/ \E a, out \in Regs, order \in {0, 1} : Switch(a, out, order)
            \/ \E a, out \in Regs, order \in {0, 1} : Refresh(a, out, order)
+           \/ \E a, out \in Regs, p \in 1..Len(PolyMenu) : Poly(a, out, p)
+           \/ \E a, out \in Regs, m \in 1..Len(LinMenu) : Lin(a, out, m)
 Spec == Init /\ [][Next]_vars
 
 TypeOK == \A r \in Regs : reg[r].lvl \in -1..MaxLevel
